@@ -1482,6 +1482,34 @@ pub fn build_graph(ops: &[crate::builder_case::Op]) -> Option<FnGraph<Fun>> {
     }
 }
 
+/// One synchronous walk over the graph value that leaves every payload as it was; which API is used
+/// is a function of `sel` (7 = none).  A panic inside the walk is left to the following run to expose.
+fn sync_walk(g: &mut FnGraph<Fun>, sel: usize) {
+    let _ = std::panic::catch_unwind(std::panic::AssertUnwindSafe(|| match sel % 8 {
+        0 => g.for_each(|_f| {}),
+        1 => {
+            let _ = g.map(|f| f.idx).count();
+        }
+        2 => {
+            let _ = g.fold(0usize, |acc, f| acc + f.idx);
+        }
+        3 => {
+            let _ = g.try_fold(0usize, |acc, f| Ok::<usize, ()>(acc + f.idx));
+        }
+        4 => {
+            let _ = g.try_for_each(|_f| Ok::<(), ()>(()));
+        }
+        5 => {
+            let _ = g.iter_insertion_mut().count();
+        }
+        6 => {
+            let dag: &mut fn_graph::daggy::Dag<Fun, fn_graph::Edge, fn_graph::FnIdInner> = &mut *g;
+            let _ = dag.node_count();
+        }
+        _ => {}
+    }));
+}
+
 fn run_body(c: &RtCase, lines: &mut Vec<String>, flags: &mut RtFlags) {
     let id = c.id;
     let Some(mut g) = build_graph(&c.ops) else {
@@ -1547,6 +1575,9 @@ fn run_body(c: &RtCase, lines: &mut Vec<String>, flags: &mut RtFlags) {
         Body::H(runs) => {
             for (j, r) in runs.iter().enumerate() {
                 let prefix = format!("r{j}.");
+                // between the runs the used graph value (never the fresh oracle graph) is walked by
+                // one of the synchronous `&mut self` APIs with a closure that changes nothing
+                sync_walk(&mut g, c.ops.len() + j);
                 match r {
                     Run::Call(cfg, evs) => {
                         // `*<k>`: the run is first executed k times unobserved on the same graph value
